@@ -445,7 +445,14 @@ class World:
             for p in paths:
                 bn = os.path.basename(p)
                 typ, mode, pid = self.oracle.filemeta[bn]
-                files.append((bn, typ, mode, pid, mpsim.read_file(p)))
+                try:
+                    entries = mpsim.read_file(p)
+                except FileNotFoundError:
+                    entries = []
+                if isinstance(entries, mpsim.Unreadable):
+                    res.failures.append(('C08:store-file-unreadable:' + entries.cls,
+                                         'the store reader raised %s on %s: %s' % (entries.cls, bn, entries.msg), i))
+                files.append((bn, typ, mode, pid, entries))
             res.pending.append((mpsim.merge_request(files), canon, i))
         nontrivial = len(self.oracle.held) >= 2 or self.events > 0
         key = hashlib.md5(mpsim.fams_fingerprint(canon).encode('utf-8')).hexdigest() if nontrivial else None
@@ -757,7 +764,10 @@ def probe_label_named_pid(ctx):
                 g.labels('b').set(2)
             except Exception:  # noqa  -- refused: nothing to probe
                 continue
-            real = sim.collect()
+            try:
+                real = sim.collect()
+            except Exception:  # noqa  -- the collector itself fails here: reported by the main stream, nothing to probe
+                continue
             files = [(os.path.basename(p), 'gauge', mode, '5', mpsim.read_file(p)) for p in sim.listing()]
             lines.append(mpsim.merge_request(files))
             reals.append((mode, real))
